@@ -1598,7 +1598,14 @@ fn gen_program(r: &mut Rng) -> (String, Vec<&'static str>) {
 
 /// hand-written seeds: earlier counterexamples and the constructs of the property's quantifier
 const SEEDS: &[&str] = &[
-    // open: the bracket closes on a joined line whose front line ended in a comment
+    // the bracket closes on a joined line whose front line ended in a comment (23f98df)
+    "⊃(1|2 # c\n;3)\n",
+    "⊃(1 # c\n;3|2)\n",
+    "{1 # c\n;3}\n",
+    "F ← (1 # c\n;3)\nF\n",
+    "((1 # c\n;3))\n",
+    "[[1 # c\n;3]]\n",
+    "(1 ## \n;3)\n",
     "(1 # c\n;3)\n",
     "[1 # c\n;3]\n",
     "(# c\n;3)\n",
